@@ -299,6 +299,22 @@ class SelectorWorld:
             base = {k: v for k, v in op["params"].items() if not (isinstance(v, dict) and "$unreached" in v) and k != "score_threshold_type"}
             self.meta[name]["resolved"] = {k: self.resolve_param(v, name) for k, v in base.items()}
             self.c08_prepare(name, self.meta[name], {"X": op["X"], "y": op.get("y")})
+        if op.get("twin_from"):
+            # an FPS object initialised with the prefix selected by another object: only
+            # meaningful while that object is a successfully fitted selector whose parameters
+            # describe its selections (domain guard, also for reduced traces)
+            src, sm = self.objs.get(op["twin_from"]), self.meta.get(op["twin_from"])
+            init = op["params"].get("initialize")
+            try:
+                ok = (src is not None and sm is not None and not sm.get("retired_for_warm") and sm["ok_fits"] > 0
+                      and int(src.n_selected_) > 0 and isinstance(init, dict) and init.get("$prefix_of") == op["twin_from"])
+            except Exception:  # noqa: BLE001
+                ok = False
+            if not ok:
+                self.objs[name] = None
+                self.meta[name]["retired"] = True
+                self.count("out_of_domain_prefix_source_not_fitted")
+                return
         try:
             obj, p = self.make_obj(op["cls"], op["params"], name)
         except Exception as e:  # noqa: BLE001
@@ -504,6 +520,7 @@ class SelectorWorld:
             "y": op.get("y"),
             "i": i,
             "env": op.get("env"),
+            "rejected_refit": bool(op.get("rejected_refit")),
         }
         m["history"].append(hist)
         if rec.exc is not None:
@@ -522,6 +539,27 @@ class SelectorWorld:
                 self.after_failed_fit(name, obj, m, op, rec)
             # state of a failed fit is unspecified: a later warm start is out of scope
             m["retired_for_warm"] = True
+            if op.get("rejected_refit") and not is_injected(rec.exc) and not warm and m["ok_fits"] > 0:
+                # ... unless the library itself REJECTED the call (an invalid parameter value,
+                # no fault, no crash) and the object still reports the selections of its last
+                # successful fit: by every public sign it is a fitted selector, and continuing
+                # it is an ordinary warm start. (If the rejection reset it to 'nothing
+                # selected', a continuation is the never-fitted case and stays out of scope.)
+                try:
+                    still = int(obj.n_selected_) > 0 and m.get("last_ok") is not None and int(obj.n_selected_) == int(m.get("last_n_selected", -1))
+                except Exception:  # noqa: BLE001
+                    still = False
+                if still:
+                    m["retired_for_warm"] = False
+                    self.probe("cold_refit_rejected_object_still_fitted")
+                else:
+                    self.probe("cold_refit_rejected_object_reset")
+            return
+        if op.get("rejected_refit"):
+            # the 'invalid' value was accepted after all: a cold fit with other parameters in
+            # the middle of a chain - nothing after it belongs to the chain's domain
+            m["retired"] = True
+            self.count("out_of_domain_expected_rejection_was_accepted")
             return
         if op.get("retry_after_crash"):
             self.probe("retry_after_crash_succeeded")
@@ -566,6 +604,9 @@ class SelectorWorld:
                 # but nothing after it belongs to the property's domain
                 m["c08_threshold_reached"] = True
         m["last_ok"] = (op, rec, n_before)
+        m["last_n_selected"] = ns
+        if warm and any(h.get("rejected_refit") for h in m["history"][:-1]):
+            self.probe("warm_start_after_rejected_cold_refit_judged")
         self.after_ok_fit(name, obj, m, op, rec, X, y, n_before)
 
     # ---- per-property oracles
@@ -1157,6 +1198,17 @@ class SelectorWorld:
         if warm_hist:
             self.probe("compared_after_warm_start")
         if len(a) != len(b):
+            thr = p.get("score_threshold")
+            if thr is not None and m.get("twin_score_min") is not None:
+                # an 'unreached' threshold is only provably unreached if the smallest score of
+                # the search exceeds it by more than the rounding allowance of the scores
+                # (single-precision data far from the origin: tau can exceed every score)
+                first = m.get("twin_score_first") or 1.0
+                thr_abs = float(thr) * (float(first) if p.get("score_threshold_type") == "relative" else 1.0)
+                if float(m["twin_score_min"]) - thr_abs <= tau:
+                    self.count("threshold_within_rounding_of_the_scores_skipped")
+                    m["c08_threshold_reached"] = True
+                    return
             V("length_differs", f"history gives {len(a)} selections {a}, cold fit {len(b)} {b}",
               recompute_every=p.get("recompute_every"))
             return
